@@ -94,9 +94,12 @@ def method_chain(node):
 def r3_backend(run, F):
     b = F.bin.bodies.get("get_backend")
     run.require(b is not None, "get_backend not found")
+    gp = [q.get("name") for q in b.get("params", [])]
+    run.require(len(gp) == 4, "get_backend: expected (flag, env var, config, default) parameters, found %s" % gp)
+    P_FLAG, P_ENV, P_CONFIG, P_DEFAULT = gp
     chain, base = method_chain(b["hir"].get("e", {}))
     names = [n for n, _ in chain]
-    ok = names == ["map", "or_else", "or_else", "unwrap_or_else"] and hirq.local_name_of(base) == "arg_backend"
+    ok = names == ["map", "or_else", "or_else", "unwrap_or_else"] and hirq.local_name_of(base) == P_FLAG
     srcs = []
     for n, node in chain:
         cl = node["a"][0] if node.get("a") else {}
@@ -104,9 +107,9 @@ def r3_backend(run, F):
         loc = [x.get("res") for x in walk(cl) if x.get("k") == "Path" and x.get("rk") == "Local"]
         if any(c == "std::env::var" for c in cs):
             srcs.append("env")
-        elif "config_backend" in loc:
+        elif P_CONFIG in loc:
             srcs.append("config")
-        elif "default" in loc:
+        elif P_DEFAULT in loc:
             srcs.append("default")
         else:
             srcs.append("flag" if n == "map" else "?")
@@ -117,13 +120,13 @@ def r3_backend(run, F):
             cs = [hirq.callee(x) or "" for x in hirq.calls(node)]
             loc = [x.get("res") for x in walk(node) if x.get("k") == "Path" and x.get("rk") == "Local"]
             out = []
-            if "arg_backend" in loc:
+            if P_FLAG in loc:
                 out.append("flag")
             if any(c == "std::env::var" for c in cs):
                 out.append("env")
-            if "config_backend" in loc:
+            if P_CONFIG in loc:
                 out.append("config")
-            if "default" in loc:
+            if P_DEFAULT in loc:
                 out.append("default")
             return out
 
